@@ -220,8 +220,8 @@ static int32_t wr_summary(struct jls_core_fsr_s * self, uint8_t level, bool clos
     ROE(wr_index(self, level));
 
     uint8_t * p_start = (uint8_t *) dst->summary;
-    uint8_t * p_end = (uint8_t *) dst->summary->data[dst->summary->header.entry_count];
-    uint32_t payload_len = (uint32_t) (p_end - p_start);
+    uint32_t entry_sz = (JLS_SUMMARY_FSR_COUNT * (uint32_t) summary_entry_size(self)) / 8;  // f32 or f64 entries
+    uint32_t payload_len = (uint32_t) sizeof(dst->summary->header) + dst->summary->header.entry_count * entry_sz;
     ROE(jls_core_wr_summary(self->parent->parent, self->parent->signal_def.signal_id, JLS_TRACK_TYPE_FSR, level,
                             p_start, payload_len));
     if (!closing || (((level + 1) < JLS_SUMMARY_LEVEL_COUNT) && self->level[level + 1])) {
